@@ -85,7 +85,7 @@ def run(chk):
 
     # ------------------------------------------------------------------ D1 store / forward
     store_sites = 0
-    chk.floor("C08-D1.store", len(sources), 14, "public methods storing a limits argument")
+    chk.floor("C08-D1.store", len(sources), 13, "public methods storing a limits argument")
     # raw-pointer overloads and thin wrappers: parameters that flow into a source parameter
     wrappers = {}
     changed = True
